@@ -14,7 +14,7 @@ macro_rules! enga_prop {
                 strat_a(&p, tier)
             }
             fn run(case: &CaseA) -> CaseReport {
-                report_a(case, $mode, $nt)
+                report_a($id, case, $mode, $nt)
             }
             fn cases(tier: Tier) -> u64 {
                 scale(tier, $q, $t)
